@@ -53,9 +53,12 @@ def reach_start(prefixes):
 def main():
     prop, descfile, outfile = sys.argv[1:4]
     faulthandler.enable()
-    # periodic stack dumps: when the parent has to kill a stalled shard the log shows
-    # where it was stuck
-    faulthandler.dump_traceback_later(20, repeat=True)
+    # stack dump on demand: before the parent kills a stalled shard it sends SIGUSR1, so
+    # that the log shows where the shard was stuck.  (A periodic
+    # faulthandler.dump_traceback_later() segfaulted the interpreter under sys.monitoring.)
+    import signal
+
+    faulthandler.register(signal.SIGUSR1, all_threads=False)
     warnings.simplefilter("ignore")
     logging.disable(logging.CRITICAL)
     with open(descfile) as f:
